@@ -1,32 +1,9 @@
 #!/usr/bin/env python3
-"""Regenerate /verif/MANIFEST.json from the table below (kept in one place so that it stays valid)."""
+"""Regenerate /verif/MANIFEST.json from tools/claims.json (kept in one place so that it stays valid)."""
 import json, pathlib
 V = pathlib.Path(__file__).resolve().parent.parent
-TECH = "bounded symbolic execution of the real Python code on z3 terms carried in NumPy object arrays (SYMNP); each obligation is an SMT validity query per feasible path; counterexamples replayed in float64"
-CLAIMED = {
- "C10": dict(text="For all operand functions (uninterpreted symbols), points and constants within the stated dimensions, value and Jacobian of composed functions equal the textbook combination; bounded by operand dims <= 3 and expression depth <= 2.", ref="DESIGN.md 3/C10",
-             note="float64 modelled as exact reals; NumPy primitive model of symgem/core.py (self-tested differentially each run); sparse Jacobians and string expressions outside."),
- "C01": dict(text="For all bounds (symbolic l<u / l==u / infinite), all user functions and Jacobians (uninterpreted symbols), all request points and all value/Jacobian interleavings within the bound (n<=2-3, m<=2, histories of 2-3 requests), returned values/Jacobians, database keys/values and memoization are as stated, for every preprocessing configuration.", ref="DESIGN.md 3/C01",
-             note="float64 as exact reals; hash stub (all symbolic keys collide, lookups decided by the real __eq__); bounds injected into Variable.__dict__ assuming lb<=ub; integer variables with concrete bounds; sparse Jacobians, complex step and NaN outside."),
- "C14": dict(text="PARTIAL (library-independent pipeline only): for every unit-sample matrix in [0,1]^{S x d} (symbolic, S<=2-3, d<=3) and all symbolic float bounds / listed integer bounds, the real compute_doe/_pre_run pipeline returns S samples inside the bounds, integral on integer variables, equal to the (rounded) design-space image of the unit samples in variable order, and restores the integer-normalization switch. The sampling algorithms themselves (SciPy/OpenTURNS/pyDOE, seeds, counts) are NOT covered: a change confined to them is not detected.", ref="DESIGN.md 3/C14",
-             note="unit sampler replaced by a contract stub (arbitrary matrix in the unit cube); float64 as reals; bounds injected into Variable.__dict__; tie-breaking rule of the rounding left unspecified (nearest integer)."),
- "C06": dict(text="PARTIAL (Jacobi / Gauss-Seidel / MDAChain over them, linear systems with concrete rational contraction matrices, <=2-3 sweeps): for all inputs, initial couplings and tolerances, (i) an MDA started at an exact solution returns it and reports a zero residual, for every relaxation factor, scaling and listing order tried; (ii) whenever the MDA claims convergence (stops before max_mda_iter or reports residual<=tol) the returned couplings satisfy every discipline within ||A||*tol. Convergence beyond the sweep bound, Newton-type MDAs, accelerations and non-linear systems are NOT covered: a change confined to them is not detected.", ref="DESIGN.md 3/C06",
-             note="float() of base_mda_solver stubbed to identity; tolerance written into settings.__dict__ (pydantic needs a concrete number); sqrt/norm through auxiliary variables s>=0, s^2=t; float64 as reals."),
- "C08": dict(text="For ALL dependency graphs on n<=3 disciplines with self-loops (and all loop-free graphs on 4; thorough: all 65536 graphs on 4), duplicated names and extra shared inputs: the real execution sequence is a valid schedule (each discipline once, groups = mutually reachable sets, producers strictly earlier), strong/weak coupling sets as documented, MDAChain wraps every cyclic group in an MDA in producer-before-consumer order; for all acyclic graphs and listing orders, MDOChain/MDAChain outputs equal the term obtained by substituting producers into consumers (uninterpreted disciplines, all inputs).", ref="DESIGN.md 3/C08",
-             note="in the graph/mdachain harnesses each path is concrete once the edge flags are chosen: the solver contributes exhaustive pruned enumeration and counterexamples, not intra-path reasoning; one coupling output per discipline, sizes 1; order of members inside a group not asserted."),
- "C02": dict(text="(a) numeric: for all symbolic bounds (l<u, l==u, infinite, one-sided), integer variables with concrete bounds, all vectors and 2xn batches (n<=3): normalize/unnormalize/gradient scalings/transform are the stated affine maps and mutually inverse, membership raises exactly outside [l-tol,u+tol] or on non-integral integers, projection is the clip; (b) histories: every sequence of <=2-3 (thorough 3-4) public edit operations and cache-filling queries on small spaces keeps all views (names, sizes, indices, bounds, current value, normalization of a symbolic vector) equal to an independent reference model.", ref="DESIGN.md 3/C02",
-             note="bounds injected into Variable.__dict__ (numeric part); history part uses concrete dyadic bounds through the public API, each path is concrete apart from the symbolic probe vector; out= buffers, out-of-bounds normalization on l==u components and position of a renamed variable not asserted."),
- "C09": dict(text="For 25 composition templates (chains, diamonds, fan-in/out, pass-through and overwritten variables, parallel, additive, nested, MDAChain with chain_linearize on acyclic systems; <=4 leaf disciplines, sizes 1-2) with fully uninterpreted disciplines and partials: for all input points and all requested input/output subsets (solver-chosen) and a second request on the same object, every returned block equals the forward-accumulated chain-rule term, zero blocks have the right shape, earlier blocks are unchanged by a later request and equal those of a fresh process. Two recorded defects of MDOChain on read-write/overwritten variables are reported as KNOWN-FINDING.", ref="DESIGN.md 3/C09",
-             note="discipline.csr_array stubbed to dense object zeros; MDOParallelChain with n_processes=1; sparse/operator partials, MDAChain through JacobianAssembly (scipy.sparse) outside."),
-}
-NA = {
- "C07": "JacobianAssembly/CoupledSystem go through scipy.sparse, SuperLU and Krylov solvers: no symbolic value survives csr_matrix(); encoding would verify a model of scipy, not the code (DESIGN.md C07).",
- "C11": "the subject is the byte-level round trip through h5py/libhdf5 and text parsing; symbolic values are realised at that boundary, leaving only enumeration of concrete histories (DESIGN.md C11).",
- "C12": "needs real process death and a real HDF5 file observed afterwards; neither can be executed symbolically (DESIGN.md C12).",
- "C13": "real threads/processes, queues and OS scheduling cannot run inside the symbolic executor; a scheduler stub would replace the code under test (DESIGN.md C13).",
- "C19": "CDF/quantile/moment code is compiled SciPy/OpenTURNS special functions; nothing a solver can see between wrapper and answer (DESIGN.md C19).",
- "C20": "pickle is a C serializer and the quantifier ranges over classes/moments of life, i.e. concrete objects; symbolic inputs add nothing (DESIGN.md C20).",
-}
+C = json.loads((V / "tools" / "claims.json").read_text())
+CLAIMED, NA, TECH = C["claimed"], C["not_applicable"], C["technique"]
 PENDING = "check not built yet in this round (planned, see DESIGN.md section 3); not claimed until its harness is committed"
 ALL = [f"C{i:02d}" for i in range(1, 21)]
 checks = []
